@@ -436,7 +436,13 @@ class Livetime(
         w = x*L
         idxs = np.digitize(w, cum_ontime_bins)
         lower = uptime_intervals_arr[:, 0]
+        upper = uptime_intervals_arr[:, 1]
         y = w - cum_ontime_bins[idxs-1]
         ontimes = lower[idxs-1] + y
+        # Due to the floating-point rounding of the sum, the generated time
+        # could coincide with the upper edge of its on-time interval, which is
+        # not part of the (half-open) interval. Keep it inside the interval.
+        ontimes = np.minimum(
+            ontimes, np.nextafter(upper[idxs-1], lower[idxs-1]))
 
         return ontimes
